@@ -5,7 +5,7 @@
 (* supplied keyword values are logged through the projection (bytes/bits   *)
 (* they denote).  The expected payload is computed by UbxBuild!Build.      *)
 (***************************************************************************)
-EXTENDS UbxBuild
+EXTENDS UbxBuild, UbxFrame
 
 Traces == JsonDeserialize(IOEnv.TRACE_FILE)
 VARIABLES tid, verdict
@@ -29,11 +29,14 @@ JudgeC15(e) ==
        ELSE IF e.out \notin {"ubx", "msg"} THEN "C15:escaped-as:" \o e.out
        ELSE IF e.structural = 0 /\ e.tgt[1] \notin b0.names THEN "triv"   \* the attribute is not part of the message built
        ELSE IF e.out = "ubx" THEN "ok"
+       ELSE IF Len(e.P) > 65535 THEN "C15:accepted-a-payload-no-frame-can-carry:" \o e.tgt[1]
        ELSE IF e.tgt[2] = "?" THEN "C15:accepted-unrepresentable-value:" \o e.tgt[1]
        ELSE LET b1 == Build(e.m, e.cls, e.id, e.pbf = 1, Append(kw0, e.tgt)) IN
             IF b1.err # "" THEN "C15:accepted-unrepresentable-value:" \o e.tgt[1]
             ELSE IF Len(e.P) # Len(b1.pl) THEN "C15:payload-length-differs-from-definition:" \o e.tgt[1]
             ELSE IF e.P # b1.pl THEN "C15:other-field-altered:" \o FirstDiffSeg(e.P, b1.pl, b1.segs)
+            \* ... and the accepted value is what the message carries on the wire: the frame embeds exactly that payload
+            ELSE IF ~(IsBytes(e.ser) /\ WellFormed(e.ser) /\ Fields(e.ser).payload = e.P) THEN "C15:accepted-value-not-carried-by-the-serialised-frame"
             ELSE "ok"
 
 Judge(e) == CASE e.prop = "C03" -> JudgeC03(e) [] e.prop = "C15" -> JudgeC15(e) [] OTHER -> "unknown-prop"
